@@ -13,6 +13,8 @@ PY
 [ $? -ne 0 ] && exit 9
 git -C /repo diff --stat | tail -1
 cd /verif
+rm -rf /verif/out/evidence.bak; cp -r /verif/evidence /verif/out/evidence.bak
 for p in "$@"; do ./check $p quick 2>&1 | grep -v "^built" | cut -c1-300 | head -${MUT_LINES:-6}; echo "rc=${PIPESTATUS[0]}"; done
 git -C /repo checkout -- .
+rm -rf /verif/evidence; mv /verif/out/evidence.bak /verif/evidence
 rm -f /verif/replays/*.tape
